@@ -412,3 +412,35 @@ Proof.
   intros H. destruct (display_scale_op_ok st bb c k H) as (Hb & Hst & Hc & Hk).
   apply stack_compose; assumption.
 Qed.
+
+(* ---- input-level hypotheses of any magnitude: coordinates <= D, extents <= S, call coordinates <= C, depth <= L ---- *)
+Theorem small_op_ok D S L C st bb c k :
+  rect_small D S bb -> Forall (ad_small D S) st -> call_small C S c ->
+  0 <= D -> 0 <= S -> 0 <= C -> Z.of_nat (length st) <= L ->
+  C + L * ((L + 2) * D) + S <= lim -> D + S <= lim ->
+  size_fits (sz bb) /\ Forall adapter_sizes st /\ op_ok st bb k c.
+Proof.
+  intros Hb Hst Hc HD HS HC HL Hlim Hlim2.
+  assert (0 <= L) by lia.
+  assert (0 <= L * ((L + 2) * D)) by nia.
+  split; [unsmall; unfold size_fits, i32_max; lia|]. split.
+  - eapply Forall_impl; [|exact Hst]. intros ad Had. apply (ad_small_sizes D S); [assumption|lia].
+  - split; [apply (call_small_sizes C S); [assumption|lia]|].
+    intros _. split; [apply (rect_small_fits D S); assumption|].
+    pose proof (lower_call_small D S L st bb Hb Hst HD HS HL c C Hc HC) as H1.
+    eapply call_small_fits; [exact H1|].
+    assert (Z.of_nat (length st) * ((L + 2) * D) <= L * ((L + 2) * D)) by nia. lia.
+Qed.
+
+Theorem stack_compose_small D S L C st bb k c m q :
+  rect_small D S bb -> Forall (ad_small D S) st -> call_small C S c ->
+  0 <= D -> 0 <= S -> 0 <= C -> Z.of_nat (length st) <= L ->
+  C + L * ((L + 2) * D) + S <= lim -> D + S <= lim ->
+  paint_all bb k (lower st bb c) m (padd q (g_off (geo_of st bb))) =
+  if g_vis (geo_of st bb) q
+  then free_paint (g_box (geo_of st bb)) (g_col (geo_of st bb)) c (shift (g_off (geo_of st bb)) m) q
+  else m (padd q (g_off (geo_of st bb))).
+Proof.
+  intros. destruct (small_op_ok D S L C st bb c k) as (Hb & Hst & Hc & Hk); try assumption.
+  apply stack_compose; assumption.
+Qed.
